@@ -235,6 +235,11 @@ def r_tag(sh, rep):
                     root = re.match(r"^&?(\w+)", recv)
                     via = defs.get(root.group(1), "") if root else ""
                     ok = "data_type.decorators" in recv or "data_type.decorators" in via
+                    # … and unconditionally, like get_constr_index_variant does (constructor's decorators chained with the
+                    # type's): a lookup that picks one list or the other by `constructor.sugar` misses a type-level tag on a
+                    # type written with an explicit constructor
+                    full = recv if "data_type.decorators" in recv else via
+                    ok = ok and not re.match(r"^if", full) and ".chain(" in full
                     rep.check(ok, "R12-TAG", "%s#tag-lookup-includes-type-level-decorators" % q.split("::")[-1], sh.loc(rel, c), "%s looks for @tag in `%s` only: a record type that carries `@tag(n)` on the type itself is built and published with index n (get_constr_index_variant / Data::from_data_type read the type's decorators) but this site falls back to the position, so the three implementations disagree on the constructor index" % (q, recv[:60]), sample={"searched": recv[:80]})
     # who may turn a constructor *name* into an index: only code that also looks at @tag. Any other place of the code
     # generator that takes the position of a constructor in `data_type.constructors` matches / builds by declaration
@@ -253,6 +258,28 @@ def r_tag(sh, rep):
                     rep.check(reads_tag, "R12-TAG", "%s#constructor-position-without-@tag" % q.split("::")[-1], sh.loc(rel, c), "%s derives a constructor's index from its position in the declaration (`%s.%s`) in a function that never reads @tag: for a type with `@tag(n)` the index used here differs from the one the constructor is built with, and a `when` runs the wrong clause" % (q, sh.nsrc(rel, c["recv"])[-50:], c["m"]), why_ok="reads DecoratorKind::Tag in the same function", sample={"fn": q})
     if owners < 2:
         rep.bad("R12-TAG", "constructor-position-sites", GB, "expected get_constr_index_variant and expect_type_assign to enumerate constructors while reading @tag (found %d): the detector may be blind (anchor)" % owners)
+    # siblings: every place of the code generator that rebuilds a user-type constructor applies constrData to a *computed*
+    # index; a literal index is the deviant (record update rebuilt every record as constructor 0)
+    lit = comp = 0
+    for q, fn in all_fns(sh.file(GEN)):
+        if "body" not in fn:
+            continue
+        for c in walk(fn["body"]):
+            if c["k"] == "MethodCall" and c["m"] == "apply" and sh.nsrc(GEN, c["recv"]) == "Term::constr_data()" and c["args"]:
+                a = sh.nsrc(GEN, c["args"][0])
+                mlit = re.fullmatch(r"Term::integer\((\d+)\.into\(\)\)", a)
+                if mlit:
+                    lit += 1
+                    rep.bad("R12-TAG", "%s#constrData-literal-index-%s" % (q.split("::")[-1], mlit.group(1)), sh.loc(GEN, c), "%s rebuilds a constructor with the literal index %s while its %s sibling site(s) compute the index (get_constr_index_variant): a type carrying `@tag(n)` is rebuilt under another index than it is constructed and decoded with" % (q, mlit.group(1), "other"), sample={"arg": a})
+                else:
+                    comp += 1
+                    rep.ok("R12-TAG", "%s#constrData-computed-index#%d" % (q.split("::")[-1], comp), sh.loc(GEN, c), sample={"arg": a[:60]})
+    if comp < 3:
+        rep.bad("R12-TAG", "constrData-sites", GEN, "expected at least 3 constrData sites with a computed index in gen_uplc.rs (found %d; anchor)" % comp)
+    # the schema generator's @list test is the code generator's: the type's decorators, nothing about how the type is written
+    sg = [fn for q, fn in all_fns(sh.file(SCH)) if q.endswith("Data::from_data_type")][0]
+    lst = [n for n in walk(sg["body"]) if n["k"] == "If" and "DecoratorKind::List" in sh.nsrc(SCH, n["cond"])]
+    rep.check(bool(lst) and all(".sugar" not in sh.nsrc(SCH, n["cond"]) for n in lst), "R12-TAG", "from_data_type#@list-does-not-depend-on-sugar", sh.loc(SCH, lst[0]) if lst else SCH, "the schema generator honours `@list` only for types written with the record sugar; the code generator represents every `@list` type as a list, so for `type T { C { .. } }` the blueprint publishes a constructor the validator never accepts")
     if n_sites < 3:
         rep.bad("R12-TAG", "tag-sites#found", GEN, "expected three @tag lookups (schema generator, get_constr_index_variant, expect decoder), found %d" % n_sites)
 
